@@ -3,14 +3,17 @@
 // Every sequence of events up to length 4 (quick) / 5 (thorough) over
 //     ASSIGN WUX 3.5 | ASSIGN WUX 7.25 | DEFINE WUX WOPR + 1 | DEFINE WUX FOPR * 2 |
 //     UPDATE WUX ON | UPDATE WUX OFF | UPDATE WUX NEXT | ASSIGN FUY 1 (unrelated quantity) | next report step
-// is rendered as real SCHEDULE `UDQ` keywords / TSTEP in a small deck, followed by
-// three more report steps; Schedule is built from it and driven like a
-// simulator does: per report step r the summary vectors get new values
-// (WOPR:Pi = 10 r + i, FOPR = 100 + r) and
+// is rendered as real SCHEDULE `UDQ` keywords / TSTEP in a small deck, followed by a fixed tail of chained
+// definitions {DEFINE WUY WUX + WOPR; DEFINE FUS SUM(WUY); DEFINE GUZ GOPR * 2; DEFINE FUG SUM(GUZ)} and
+// four more report steps; Schedule is built from it and driven like a simulator does: per report step r the summary vectors get new values
+// (WOPR:Pi = 10 r + i, but P2 has no WOPR at steps 2,5,8 and P3 none at 3,7; GOPR:Gj = 50 r + j, G2 none at 3,6,9;
+// FOPR = 100 + r) and
 //     sched.getUDQConfig(r-1).eval(r, wellMatcher(r), ..., SummaryState, UDQState)
 // is called once with the UDQState / SummaryState carried along.  After every
-// step the value of WUX for each well (UDQState and SummaryState) is compared
-// with a reference lifecycle model:
+// step the value of WUX for each well, and in the tail steps WUY, FUS, GUZ, FUG, are read back through
+// UDQState (has_well_var/get_well_var, has_group_var/get_group_var, has/get) and SummaryState and compared
+// with a reference lifecycle model (an element that evaluates to undefined must be absent / hold the
+// undefined value, never a stale number):
 //   * ASSIGN x v   : x = v for all wells from this step on (until the next ASSIGN / DEFINE evaluation)
 //   * DEFINE x e   : x is (re)defined with update mode ON; a defined quantity is evaluated on the
 //                    current summary values at every step while ON
@@ -46,10 +49,22 @@ static const std::vector<std::string> WELLS{"P1", "P2", "P3"};
 static const char* EVN[] = {"ASSIGN WUX 3.5", "ASSIGN WUX 7.25", "DEFINE WUX WOPR + 1", "DEFINE WUX FOPR * 2",
                             "UPDATE WUX ON", "UPDATE WUX OFF", "UPDATE WUX NEXT", "ASSIGN FUY 1", "STEP"};
 enum { A1, A2, D1, D2, UON, UOFF, UNEXT, AY, STEP, NEV };
-static const int TRAIL = 3;
+static const int TRAIL = 4;
 
-static double wopr(int r, int w) { return 10.0 * r + (w + 1); }
+// step dependent summary inputs; some elements go defined -> undefined -> defined over the report steps
+// (a well / group without an entry for the vector at that step, like a well that is not flowing)
+static const std::vector<std::string> GROUPS{"G1", "G2"};
+static OD wopr(int r, int w) {
+    if (w == 1 && r % 3 == 2) return std::nullopt;       // P2: no WOPR at steps 2, 5, 8
+    if (w == 2 && r % 4 == 3) return std::nullopt;       // P3: no WOPR at steps 3, 7
+    return 10.0 * r + (w + 1);
+}
+static OD gopr(int r, int g) {
+    if (g == 1 && r % 3 == 0) return std::nullopt;       // G2: no GOPR at steps 3, 6, 9
+    return 50.0 * r + (g + 1);
+}
 static double fopr(int r) { return 100.0 + r; }
+static const double UNDEF = -99.0;                       // UDQPARAM item 3 in the deck
 
 // --------------------------------------------------------------- model
 enum Mode { ON, OFF, NEXT };
@@ -72,7 +87,7 @@ struct Model {
     }
     std::vector<OD> define_value(int r) const {
         std::vector<OD> v;
-        for (int w = 0; w < 3; ++w) v.push_back(expr == 1 ? wopr(r, w) + 1 : fopr(r) * 2);
+        for (int w = 0; w < 3; ++w) { if (expr == 1) { OD o = wopr(r, w); v.push_back(o ? OD(*o + 1) : std::nullopt); } else v.push_back(fopr(r) * 2); }
         return v;
     }
     // returns what happened to x at this evaluation: 'a' assigned, 'd' define evaluated, 'k' kept
@@ -102,17 +117,19 @@ static Base* B;
 
 static std::string deck_text(const std::vector<int>& h) {
     std::string s =
-        "RUNSPEC\nDIMENS\n 3 3 3 /\nOIL\nWATER\nGAS\nSTART\n 1 'JAN' 2020 /\nWELLDIMS\n 4 4 2 4 /\nTABDIMS\n/\n"
+        "RUNSPEC\nDIMENS\n 3 3 3 /\nOIL\nWATER\nGAS\nSTART\n 1 'JAN' 2020 /\nWELLDIMS\n 4 4 2 4 /\nTABDIMS\n/\nUDQPARAM\n 1 1E20 -99 1E-4 /\n"
         "GRID\nDX\n 27*100 /\nDY\n 27*100 /\nDZ\n 27*10 /\nTOPS\n 9*2000 /\nPORO\n 27*0.3 /\nPERMX\n 27*100 /\nPERMY\n 27*100 /\nPERMZ\n 27*10 /\n"
         "PROPS\nSOLUTION\n"
         "SCHEDULE\n"
-        "WELSPECS\n 'P1' 'G1' 1 1 1* OIL /\n 'P2' 'G1' 2 1 1* OIL /\n 'P3' 'G1' 3 1 1* OIL /\n/\n"
+        "WELSPECS\n 'P1' 'G1' 1 1 1* OIL /\n 'P2' 'G1' 2 1 1* OIL /\n 'P3' 'G2' 3 1 1* OIL /\n/\n"
         "COMPDAT\n 'P1' 1 1 1 1 OPEN 1* 1* 0.2 /\n 'P2' 2 1 1 1 OPEN 1* 1* 0.2 /\n 'P3' 3 1 1 1 OPEN 1* 1* 0.2 /\n/\n"
         "WCONPROD\n 'P*' OPEN ORAT 100 /\n/\n";
     for (int ev : h) {
         if (ev == STEP) s += "TSTEP\n 1 /\n";
         else { s += "UDQ\n "; s += EVN[ev]; s += " /\n/\n"; }
     }
+    // fixed tail: chained definitions (one UDQ referencing another, well / group / field level)
+    s += "UDQ\n DEFINE WUY WUX + WOPR /\n DEFINE FUS SUM(WUY) /\n DEFINE GUZ GOPR * 2 /\n DEFINE FUG SUM(GUZ) /\n/\n";
     for (int i = 0; i < TRAIL; ++i) s += "TSTEP\n 1 /\n";
     return s;
 }
@@ -155,7 +172,8 @@ static std::string check(const std::vector<int>& h, std::string& what_out, bool 
         const std::vector<OD> before = m.value;
         const Model mb = m;
         const char what = m.evaluate(r);
-        for (int w = 0; w < 3; ++w) st.update_well_var(WELLS[w], "WOPR", wopr(r, w));
+        for (int w = 0; w < 3; ++w) { if (OD o = wopr(r, w)) st.update_well_var(WELLS[w], "WOPR", *o); else st.erase_well_var(WELLS[w], "WOPR"); }
+        for (int g = 0; g < 2; ++g) { st.update_group_var(GROUPS[g], "GWPR", 1.0 + g); if (OD o = gopr(r, g)) st.update_group_var(GROUPS[g], "GOPR", *o); else st.erase_group_var(GROUPS[g], "GOPR"); }
         st.update("FOPR", fopr(r));
         try {
             sched->getUDQConfig(r - 1).eval(r, sched->wellMatcher(r), sched->segmentMatcherFactory(r),
@@ -172,12 +190,14 @@ static std::string check(const std::vector<int>& h, std::string& what_out, bool 
         trace += show(got);
         if (!same(got, m.value)) {
             std::string key = "C17:hist:value-mismatch";
+            bool stale = true; for (int w = 0; w < 3; ++w) if (!(got[w].has_value() == m.value[w].has_value() && (!got[w] || std::fabs(*got[w] - *m.value[w]) <= 1e-12 * std::fabs(*got[w]))) && !(got[w] && !m.value[w])) stale = false;
             const std::vector<OD> dv = mb.has_def ? mb.define_value(r) : std::vector<OD>(3, std::nullopt);
             if (what == 'k' && mb.active_define && same(got, dv) && !same(dv, before)) key = mb.next_consumed ? "C17:hist:next-evaluated-again" : "C17:hist:update-off-ignored";
             else if (what == 'd' && same(got, before)) key = mb.mode == NEXT ? "C17:hist:update-next-not-evaluated" : "C17:hist:define-not-evaluated";
             else if (what == 'd' && mb.pending && same(got, std::vector<OD>(3, mb.pending))) key = "C17:hist:assign-overrides-later-define";
             else if (what == 'a' && mb.has_def && same(got, dv)) key = "C17:hist:define-overrides-later-assign";
             else if (what == 'a' && same(got, before)) key = "C17:hist:assign-not-applied";
+            if (stale) key = "C17:hist:udqstate-keeps-undefined-element";
             what_out = "history [" + hist_str(h) + "] then report steps: at step " + std::to_string(r) + " WUX = " + show(got) + ", lifecycle model = " + show(m.value)
                          + " (model: " + (what == 'a' ? "assigned" : what == 'd' ? "definition evaluated" : "kept") + ", previous " + show(before) + ")";
             return key;
@@ -189,6 +209,38 @@ static std::string check(const std::vector<int>& h, std::string& what_out, bool 
         }
         if (m.y_assigned) {
             if (!udq_state.has("FUY") || udq_state.get("FUY") != 1.0) { what_out = "history [" + hist_str(h) + "] step " + std::to_string(r) + ": FUY not 1"; return "C17:hist:unrelated-quantity-lost"; }
+        }
+        // chained definitions of the fixed tail (active from the report step in which the history ends)
+        if (r > nsteps - TRAIL) {
+            std::vector<OD> wuy, guz, fus(1), fug(1);
+            { double sum = 0; bool any = false;
+              for (int w = 0; w < 3; ++w) { OD o = wopr(r, w); wuy.push_back(m.value[w] && o ? OD(*m.value[w] + *o) : std::nullopt); if (wuy[w]) { sum += *wuy[w]; any = true; } }
+              if (any) fus[0] = sum; }
+            { double sum = 0; bool any = false;
+              for (int g = 0; g < 2; ++g) { OD o = gopr(r, g); guz.push_back(o ? OD(*o * 2) : std::nullopt); if (guz[g]) { sum += *guz[g]; any = true; } }
+              if (any) fug[0] = sum; }
+            struct Q { const char* name; char level; const std::vector<OD>* model; };
+            const Q qs[] = {{"WUY", 'W', &wuy}, {"FUS", 'F', &fus}, {"GUZ", 'G', &guz}, {"FUG", 'F', &fug}};
+            for (const Q& q : qs) {
+                std::vector<OD> us, ss;
+                for (size_t i = 0; i < q.model->size(); ++i) {
+                    if (q.level == 'W') { us.push_back(udq_state.has_well_var(WELLS[i], q.name) ? OD(udq_state.get_well_var(WELLS[i], q.name)) : std::nullopt);
+                                          ss.push_back(st.has_well_var(WELLS[i], q.name) ? OD(st.get_well_var(WELLS[i], q.name)) : std::nullopt); }
+                    else if (q.level == 'G') { us.push_back(udq_state.has_group_var(GROUPS[i], q.name) ? OD(udq_state.get_group_var(GROUPS[i], q.name)) : std::nullopt);
+                                               ss.push_back(st.has_group_var(GROUPS[i], q.name) ? OD(st.get_group_var(GROUPS[i], q.name)) : std::nullopt); }
+                    else { us.push_back(udq_state.has(q.name) ? OD(udq_state.get(q.name)) : std::nullopt); ss.push_back(st.has(q.name) ? OD(st.get(q.name)) : std::nullopt); }
+                }
+                trace += show(us);
+                // SummaryState carries the evaluated set of this step: undefined elements hold the undefined value
+                std::vector<OD> ss_norm = ss; for (auto& x : ss_norm) if (x && *x == undef) x.reset();
+                const bool st_ok = same(ss_norm, *q.model), us_ok = same(us, *q.model);
+                if (st_ok && us_ok) continue;
+                bool stale = !us_ok; for (size_t i = 0; i < us.size(); ++i) { const bool eq = us[i].has_value() == (*q.model)[i].has_value() && (!us[i] || std::fabs(*us[i] - *(*q.model)[i]) <= 1e-12 * std::fabs(*us[i])); if (!eq && !(us[i] && !(*q.model)[i])) stale = false; }
+                what_out = "history [" + hist_str(h) + "] + tail {DEFINE WUY WUX + WOPR; DEFINE FUS SUM(WUY); DEFINE GUZ GOPR * 2; DEFINE FUG SUM(GUZ)}: at step " + std::to_string(r) + " " + q.name
+                         + ": UDQState " + show(us) + ", SummaryState " + show(ss) + ", model " + show(*q.model) + " (WUX model " + show(m.value) + ")";
+                if (stale && st_ok) return "C17:hist:udqstate-keeps-undefined-element";
+                return std::string("C17:hist:chain:") + q.name + (us_ok ? ":summary-state" : st_ok ? ":udq-state" : ":value");
+            }
         }
     }
     if (record) {
@@ -231,13 +283,15 @@ int main(int argc, char** argv) {
     vf::Run run("C17", argc, argv); R = &run;
     Base base; B = &base;
     const int L = run.thorough() ? 5 : 4;
-    run.rule = "all event sequences up to length " + std::to_string(L) + " over {ASSIGN x v1|v2, DEFINE x e1|e2, UPDATE x ON|OFF|NEXT, ASSIGN y (unrelated), next report step} + 3 trailing report steps, "
-               "through real SCHEDULE UDQ keywords; one UDQConfig::eval per report step with carried UDQState/SummaryState and step-dependent summary values; oracle: reference lifecycle model; distinct = distinct value traces";
+    run.rule = "all event sequences up to length " + std::to_string(L) + " over {ASSIGN x v1|v2, DEFINE x e1|e2, UPDATE x ON|OFF|NEXT, ASSIGN y (unrelated), next report step} + fixed tail {DEFINE WUY WUX + WOPR; DEFINE FUS SUM(WUY); DEFINE GUZ GOPR * 2; DEFINE FUG SUM(GUZ)} + 4 trailing report steps, "
+               "through real SCHEDULE UDQ keywords; one UDQConfig::eval per report step with carried UDQState/SummaryState and step-dependent summary values in which well/group elements go defined -> undefined -> defined; after every step WUX and (tail) WUY, FUS, GUZ, FUG are read back through UDQState (has/get at well, group, field level) and SummaryState; oracle: reference lifecycle model + element-wise evaluation with undefined propagation; distinct = distinct value traces";
     run.assumptions = {
         "lifecycle model: ASSIGN makes x a constant from that step on; DEFINE (re)defines x with update mode ON; ON = evaluated every step, OFF = frozen, NEXT = evaluated at the next step only then frozen; the later of ASSIGN/DEFINE decides",
         "UPDATE before any ASSIGN/DEFINE of x is not enabled (input rejected); UPDATE of a currently ASSIGNed quantity has no observable effect",
         "one evaluation per report step (sub-steps of a report step are not modelled); ASSIGN uses no well selector (a selector after a DEFINE is ambiguous in the statement)",
-        "expressions e1 = WOPR + 1 (well set), e2 = FOPR * 2 (scalar scattered); summary values change every step so stale and fresh evaluations differ"};
+        "expressions e1 = WOPR + 1 (well set), e2 = FOPR * 2 (scalar scattered); summary values change every step so stale and fresh evaluations differ",
+        "an element that evaluates to undefined must be absent from UDQState and hold the undefined value (UDQPARAM item 3 = -99) in SummaryState; a quantity referenced before it exists is undefined; SUM of an all-undefined set is undefined",
+        "the chained definitions are entered after the history's events, so they are evaluated after WUX (definition order)"};
 
     if (!run.replay_path.empty()) {
         std::vector<int> h; std::string s = run.replay_path; for (auto& c : s) if (c == ',') c = ' ';
